@@ -287,8 +287,50 @@ def shipped(ctx):
         ctx.count("enum_members")
 
 
+def one_off_default(ctx):
+    """configurations that differ from the defaults in exactly one setting (a writer that omits what "is the default"
+    is only wrong when it judges default-ness by part of an object)"""
+    import copy
+    base_cfg = E.mk_cfg("UNMATCHED", ["DSC", "IOU", "ASSD", "RVD"], matcher=E.naive("IOU", (1, 2)))
+    variants = []
+
+    def var(name, f):
+        c = copy.deepcopy(base_cfg)
+        f(c)
+        variants.append((name, c))
+    var("defaults", lambda c: None)
+    for v in ("ZERO", "INF", "ONE"):
+        var("empty_list_std=" + v, lambda c, v=v: c["handler"].__setitem__("empty_list_std", v))
+    for k, (m, cell, v) in enumerate((("DSC", "NO_INSTANCES", "ONE"), ("IOU", "EMPTY_PRED", "NAN"), ("ASSD", "NORMAL", "ZERO"), ("RVD", "EMPTY_REF", "ZERO"),
+                                      ("clDSC", "NORMAL", "ONE"))):
+        def f(c, m=m, cell=cell, v=v):
+            for e in c["handler"]["table"]:
+                if e[0] == m:
+                    e[1][cell] = v
+        var(f"table.{m}.{cell}={v}", f)
+    var("table.order", lambda c: c["handler"]["table"].reverse())
+    var("threshold", lambda c: c["matcher"]["thr"].__setitem__("q", [1, 4]))
+    var("m2o", lambda c: c["matcher"].__setitem__("m2o", True))
+    var("matching_metric", lambda c: c["matcher"].__setitem__("metric", "DSC"))
+    var("merge matcher", lambda c: c.__setitem__("matcher", E.merge("IOU", (1, 2))))
+    var("decision", lambda c: c.__setitem__("decision", ["IOU", {"q": [7, 10]}]))
+    var("metrics", lambda c: c.__setitem__("eval_metrics", ["IOU", "DSC"]))
+    var("input", lambda c: c.__setitem__("input", "SEMANTIC"))
+    var("backend", lambda c: (c.__setitem__("input", "SEMANTIC"), c.__setitem__("backend", "scipy")))
+    noflags = {"save_group_times": False, "log_times": False, "verbose": False}
+    for name, cfg in variants:
+        ctx.count("one_setting_off_default")
+        one_case(ctx, (cfg, None, [], noflags), "oneoff." + name)
+    for fl in noflags:
+        one_case(ctx, (copy.deepcopy(base_cfg), None, [], dict(noflags, **{fl: True})), "oneoff.flag." + fl)
+    one_case(ctx, (copy.deepcopy(base_cfg), None, ["DSC"], noflags), "oneoff.global_metrics")
+    one_case(ctx, (copy.deepcopy(base_cfg), [{"name": "a", "labels": [1], "merge": False, "single": False}, {"name": "b", "labels": [2, 3], "merge": False, "single": False}],
+                   [], noflags), "oneoff.groups")
+
+
 def run(ctx):
     shipped(ctx)
+    one_off_default(ctx)
     for i in range(ctx.scale(60, 700)):
         one_case(ctx, rand_eval_spec(ctx.rng), f"rand{i}")
     shutil.rmtree(VERIF / ".work" / f"c19_{os.getpid()}", ignore_errors=True)
